@@ -278,6 +278,11 @@ func setHmac(ctx context.Context, transport Transport, hmac hash.Hash, ovh *Vouc
 	switch typ {
 	case protocol.DIDoneMsgType:
 		captureMsgType(ctx, typ)
+		var done struct{}
+		if err := cbor.NewDecoder(resp).Decode(&done); err != nil {
+			captureErr(ctx, protocol.MessageBodyErrCode, "")
+			return fmt.Errorf("error parsing DI.Done contents: %w", err)
+		}
 		return nil
 
 	case protocol.ErrorMsgType:
